@@ -8,6 +8,7 @@ import (
 	"math/rand"
 	"os"
 	"path/filepath"
+	"regexp"
 	"strings"
 	"time"
 
@@ -131,8 +132,21 @@ func runMemoPair(inputs []string) (a, b []inObs) {
 	a, _ = runHistory(inputs, RunOpt{ShortFor: c10ShortMark, Short: 5 * time.Millisecond})
 	vcountN = 0
 	b, _ = runHistory(inputs, RunOpt{CacheOff: true, ShortFor: c10ShortMark, Short: 5 * time.Millisecond})
+	for _, o := range [][]inObs{a, b} {
+		for i := range o {
+			// where exactly a deadline strikes inside the input that is given too little time is the machine's business: that input
+			// is there for what it leaves behind; and the memory guard's message carries byte counts of the moment
+			if strings.Contains(inputs[i], c10ShortMark) {
+				o[i] = inObs{}
+			}
+			o[i].Val = reMemGuardNumbers.ReplaceAllString(o[i].Val, "would exceed memory requesting N objects, M free")
+			o[i].Out = reMemGuardNumbers.ReplaceAllString(o[i].Out, "would exceed memory requesting N objects, M free")
+		}
+	}
 	return
 }
+
+var reMemGuardNumbers = regexp.MustCompile(`would exceed memory requesting \d+ objects, -?\d+ free`)
 
 func memoSignature(inputs []string) string {
 	joined := strings.Join(inputs, "\n")
